@@ -246,9 +246,16 @@ Lemma rename_file : forall t src dst c, dirs_above t src -> dirs_above t dst -> 
   lookup t dst <> Some Dir -> src <> dst ->
   rename t src dst = Ok (set (unset t src) dst (File c)).
 Proof.
-  intros t src dst c Hs Hd Hl Hnd Hne. unfold rename. rewrite (lstat_ok t src Hs), Hl. cbn [bind].
-  rewrite (parent_ok_ok t dst Hd). cbn [bind].
-  destruct (lookup t dst) as [[x| |x]|]; try contradiction; (apply path_eqb_neq in Hne; now rewrite Hne).
+  intros t src dst c Hs Hd Hl Hnd Hne. unfold rename. rewrite (lstat_ok t dst Hd).
+  assert (E : (do n <- lstat t src;; do _ <- parent_ok t dst;;
+               match n with
+               | Dir => if is_prefix src dst then Err EINVAL
+                        else match lookup t dst with Some _ => Err ENOTDIR | None => Ok (move_subtree t src dst) end
+               | _ => if path_eqb src dst then Ok t else Ok (set (unset t src) dst n)
+               end) = Ok (set (unset t src) dst (File c))).
+  { rewrite (lstat_ok t src Hs), Hl. cbn [bind]. rewrite (parent_ok_ok t dst Hd). cbn [bind].
+    apply path_eqb_neq in Hne. now rewrite Hne. }
+  destruct (lookup t dst) as [[x| |x]|]; try exact E. contradiction.
 Qed.
 
 Lemma read_file_ok : forall t p c, dirs_above t p -> lookup t p = Some (File c) -> read_file t p = Ok c.
